@@ -272,7 +272,7 @@ pub fn mk_config(ps: &PredSpec, vm: &str, debug: bool, rec: Recorder, verbose: b
 
 pub struct SysSpec {
     pub nodes: Vec<(u64, f64)>,
-    pub procs: Vec<(u64, u64, u64, bool, usize)>,
+    pub procs: Vec<(u64, u64, u64, u64, usize)>,
     pub rows: HashMap<u64, Vec<Vec<Act>>>,
     pub net: (f64, f64, f64, f64, f64),
 }
@@ -293,7 +293,7 @@ impl SysSpec {
                 let p = t.u64();
                 let n = t.u64();
                 let cap = t.u64();
-                let rt = t.bool();
+                let rt = t.u64();
                 let nd = t.usize();
                 self.procs.push((p, n, cap, rt, nd));
             }
